@@ -1,7 +1,16 @@
-"""C14 — truncated binary files are never silently misread (uamiv Memmap reader; more formats to follow)"""
+"""C14 — truncated binary files are never silently misread (uamiv, slab formats, bpch)"""
+import contextlib
+import io
 import json
+import os
+import shutil
+import tempfile
 
+import numpy as np
+
+from .. import bpchfmt as B
 from .. import camx, lib
+from .. import slabfmt as S
 
 ID = 'C14'
 LEAN_MODULE = 'PncProofs.C14'
@@ -10,13 +19,19 @@ NAMESPACE = 'Props.C14'
 LEAN_CONE = ['PncModel.Words', 'PncModel.Camx.Uamiv', 'PncProofs.PrefixLemmas', 'PncProofs.C14']
 LEMMA_FILES = ['PncProofs/PrefixLemmas.lean']
 REQUIRED_THEOREMS = ['prefix_safe', 'odd_cut_raises']
-RULE = ('small generated uamiv files (1-2 species, 1-2 layers, 1-2x1-2 cells, 1-3 steps) cut at byte offsets: '
+RULE = ('three families. (1) small generated uamiv files (1-2 species, 1-2 layers, 1-2x1-2 cells, 1-3 steps) cut at byte offsets: '
         'quick = every record boundary +-{0,1,2,3,4} bytes and 40 random offsets per file; thorough = EVERY byte '
         'offset of each file; compared: raise/no-raise and the complete view (dimension counts, species, '
         'TFLAG/ETFLAG, every data word) with the Lean reader model; oracle: exposes only complete leading '
-        'steps identical to the full file; non-trivial = cut inside the time-step region')
+        'steps identical to the full file. (2) slab formats (one3d, humidity, vertical diffusivity, temperature, '
+        'height/pressure; 2-4 steps): every record boundary +-{0..4} bytes and random offsets (thorough: every byte); '
+        'the Memmap reader against the Lean reader model on the prefix and the same oracle. (3) bpch (bpch1): every '
+        'block boundary +-{0..4} bytes and random offsets; oracle: leading steps identical to the full file, or - for a '
+        'cut at a block boundary inside the first step, where the prefix is itself a valid file with fewer tracers - '
+        'identical data of the tracers present; non-trivial = cut inside the time-step region')
 ASSUMPTIONS = ['numpy.memmap raises when offset+shape exceeds the file (modelled as error)',
-               'covers the uamiv Memmap reader; lateral_boundary / meteorological / bpch readers are not yet in this check']
+               'the theorems (prefix_safe, odd_cut_raises) are about the uamiv reader model; slab formats are tied by the '
+               'correspondence with the Lean reader model, bpch by the oracle only; lateral_boundary, wind, cloud_rain are not in this check']
 MIN_NONTRIVIAL = {'quick': 40, 'thorough': 400}
 NPROC = {'quick': 1, 'thorough': 12}
 
@@ -63,10 +78,97 @@ def gen(rng, tier):
             cuts = sorted(cuts)
         for n in cuts:
             out.append(dict(spec=spec, cut=n))
+    # slab formats
+    for fi in range(3 if tier == 'quick' else 10):
+        c = S.gen(rng)
+        c['nx'], c['ny'] = min(c['nx'], 2), min(c['ny'], 2)
+        c['data'] = [[sl[:c['nx'] * c['ny']] for sl in slabs] for slabs in c['data']]
+        rec = 4 * (c['nx'] * c['ny'] + 4)
+        size = rec * len(c['data'][0]) * len(c['flags'])
+        if tier == 'thorough':
+            cuts = range(size)
+        else:
+            cuts = {k * rec + d for k in range(size // rec + 1) for d in (-4, -3, -2, -1, 0, 1, 2, 3, 4) if 0 <= k * rec + d < size}
+            cuts |= {rng.randrange(size) for _ in range(30)}
+        for n in sorted(cuts):
+            out.append(dict(family='slab', spec=c, cut=n))
+    # bpch
+    for fi in range(2 if tier == 'quick' else 8):
+        c = B.gen(rng)
+        c['nx'], c['ny'] = min(c['nx'], 2), 1
+        for t in range(c['nt']):
+            for bi, b in enumerate(c['blocks']):
+                c['data'][t][bi] = c['data'][t][bi][:c['nx'] * c['ny'] * b['nz']]
+        raw = B.encode(c)
+        size = len(raw)
+        marks = [0, 48, 136]
+        pos = 136
+        for t in range(c['nt']):
+            for b in c['blocks']:
+                pos += 44 + 176 + 8 + 4 * c['nx'] * c['ny'] * b['nz']
+                marks.append(pos)
+        if tier == 'thorough':
+            cuts = range(size)
+        else:
+            cuts = {mk + d for mk in marks for d in (-4, -3, -2, -1, 0, 1, 2, 3, 4) if 0 <= mk + d < size}
+            cuts |= {rng.randrange(size) for _ in range(30)}
+        for n in sorted(cuts):
+            out.append(dict(family='bpch', spec=c, cut=n))
     return out
 
 
+def _slab_full(spec):
+    key = 'slab' + json.dumps(spec, sort_keys=True)
+    if key not in _CACHE:
+        b = S.encode(spec)
+        _CACHE[key] = (b, _slab_read(spec, b))
+    return _CACHE[key]
+
+
+def _slab_read(spec, b):
+    p = os.path.join(camx.tmpdir(), 'c14s_%d_%d.bin' % (os.getpid(), np.random.randint(1 << 30)))
+    open(p, 'wb').write(b)
+    try:
+        return S.view(S.open_reader(spec, p, 'memmap'), spec)
+    finally:
+        os.remove(p)
+
+
+def _bpch_read(spec, b):
+    from PseudoNetCDF.geoschemfiles._bpch import bpch1
+    from . import c18
+    d = tempfile.mkdtemp(prefix='c14b_', dir=camx.tmpdir())
+    try:
+        p = os.path.join(d, 'a.bpch')
+        open(p, 'wb').write(b)
+        B.tables(spec, d)
+        with contextlib.redirect_stdout(io.StringIO()):
+            return c18.view(bpch1(p, noscale=True), spec)
+    finally:
+        shutil.rmtree(d, True)
+
+
+def _bpch_full(spec):
+    key = 'bpch' + json.dumps(spec, sort_keys=True)
+    if key not in _CACHE:
+        b = B.encode(spec)
+        _CACHE[key] = (b, _bpch_read(spec, b))
+    return _CACHE[key]
+
+
 def impl(case):
+    fam = case.get('family', 'uamiv')
+    if fam != 'uamiv':
+        with lib.pnc_warnings():
+            b, full = (_slab_full if fam == 'slab' else _bpch_full)(case['spec'])
+            p = b[:case['cut']]
+            try:
+                v = (_slab_read if fam == 'slab' else _bpch_read)(case['spec'], p)
+                return dict(view=v, hex=p.hex())
+            except lib.HarnessError:
+                raise
+            except Exception as e:
+                return dict(err=type(e).__name__, msg=str(e)[:100], hex=p.hex())
     b, full = _file_bytes(case['spec'])
     p = b[:case['cut']]
     try:
@@ -79,12 +181,39 @@ def impl(case):
 
 
 def to_line(case, res):
+    fam = case.get('family', 'uamiv')
+    if fam == 'slab':
+        h = res['hex']
+        n = len(h) // 8
+        c = case['spec']
+        return 'bin slab-mm %s %d %s' % (S.FORMATS[c['fmt']][0], c['nx'] * c['ny'], h[:8 * n] or '-')
+    if fam == 'bpch':
+        return 'bin slab-mm one3d 1 -'          # no model question for bpch prefixes (oracle only)
     h = res['hex']
     n = len(h) // 8
     return 'bin uamiv-read %s %d' % (h[:8 * n] or '-', (len(h) // 2) % 4)
 
 
 def agree(case, out, res):
+    fam = case.get('family', 'uamiv')
+    if fam == 'bpch':
+        return None
+    if fam == 'slab':
+        if len(res['hex']) % 8 != 0:
+            # a cut inside a word: numpy cannot map the file as float32 — must raise
+            return None if 'err' in res else 'a file of %d bytes was opened' % (len(res['hex']) // 2)
+        if 'err' in res:
+            return None if out.startswith('err') else 'impl raised %s (%s), model presents %s' % (res['err'], res.get('msg'), out[:60])
+        if not out.startswith('ok '):
+            return 'model %s, impl returned %s steps' % (out[:40], res['view'].get('nt'))
+        _, kv = lib.parse_kv('x ' + out[3:])
+        v = res['view']
+        for k in ('nt', 'nz'):
+            if float(kv[k]) != float(v[k]):
+                return '%s model=%s impl=%s' % (k, kv[k], v[k])
+        if kv['vars'] != v['vars'] or kv['tflag'] != v.get('tflag'):
+            return 'prefix view differs from the model'
+        return None
     if 'err' in res:
         return None if out.startswith('err') else 'impl raised %s (%s), model presents %s' % (res['err'], res.get('msg'), out[:60])
     if not out.startswith('ok '):
@@ -92,9 +221,48 @@ def agree(case, out, res):
     return camx.diff_view(out, res['view'])
 
 
+def _oracle_slab(case, res):
+    b, full = _slab_full(case['spec'])
+    v = res['view']
+    nt = len(case['spec']['flags'])
+    if not float(v['nt']).is_integer() or float(v['nz']) != float(full['nz']) or v['nt'] > nt:
+        return 'prefix of %d bytes presents nt=%s nz=%s (full file %s, %s)' % (case['cut'], v['nt'], v['nz'], full['nt'], full['nz'])
+    k = int(v['nt'])
+    fv = dict(x.split('~') for x in full['vars'].split(';'))
+    for x in v['vars'].split(';'):
+        name, hx = x.split('~')
+        n = len(fv[name]) // nt
+        if hx != fv[name][:n * k]:
+            return 'prefix of %d bytes presents data of %s that differ from the first %d steps' % (case['cut'], name, k)
+    if v.get('tflag') != ','.join(full['tflag'].split(',')[:k]):
+        return 'prefix presents time flags %s, the full file %s' % (v.get('tflag'), full['tflag'])
+    return None
+
+
+def _oracle_bpch(case, res):
+    b, full = _bpch_full(case['spec'])
+    v = res['view']
+    nt = case['spec']['nt']
+    k = len(v['tau0'])
+    if k > nt or v['tau0'] != full['tau0'][:k] or v['tau1'] != full['tau1'][:k]:
+        return 'prefix of %d bytes presents time bounds %s' % (case['cut'], v['tau0'])
+    if len(v['vars']) != len(full['vars']) and k != 1:
+        return 'prefix of %d bytes presents %d tracers over %d steps, the full file has %d' % (case['cut'], len(v['vars']), k, len(full['vars']))
+    for a, f_ in zip(v['vars'], full['vars']):
+        n = len(f_['bits']) // nt
+        if a['key'] != f_['key'] or a['bits'] != f_['bits'][:n * k] or a['shape'][0] != k:
+            return 'prefix of %d bytes presents data of %s that differ from the first %d steps' % (case['cut'], a['key'], k)
+    return None
+
+
 def oracle(case, res):
     if 'err' in res:
         return None
+    fam = case.get('family', 'uamiv')
+    if fam == 'slab':
+        return _oracle_slab(case, res)
+    if fam == 'bpch':
+        return _oracle_bpch(case, res)
     b, full = _file_bytes(case['spec'])
     v = res['view']
     if 'inconsistent' in v:
@@ -117,6 +285,8 @@ def classify(case, failure, model_out):
 
 
 def nontrivial(case, res):
+    if case.get('family', 'uamiv') != 'uamiv':
+        return case['cut'] > 140
     nspec = len(case['spec']['species'])
     return case['cut'] > 4 * (103 + 10 * nspec)
 
@@ -127,6 +297,8 @@ def distribution(recs):
         if 'err' in r['impl']:
             d['errors'] += 1
             d['err_' + r['impl']['err']] = d.get('err_' + r['impl']['err'], 0) + 1
+        elif r['case'].get('family', 'uamiv') != 'uamiv':
+            d['ok_' + r['case']['family']] = d.get('ok_' + r['case']['family'], 0) + 1
         elif 'inconsistent' in r['impl']['view']:
             d['inconsistent'] = d.get('inconsistent', 0) + 1
         else:
